@@ -190,8 +190,16 @@ def run(ctx, rep):
                         for c in ast.walk(it[1]):
                             if isinstance(c, ast.Call) and isinstance(c.func, ast.Attribute) and c.func.attr == "encode":
                                 codec = B.norm_codec(ctx.try_fold(c.args[0]) if c.args else "utf-8")
-                                rep.ob("R19.1", "writer: text is UTF-8", codec == B.norm_codec(b["str"]["codec"]),
-                                       "codec %s" % codec, ctx.loc(p.nodes[0]), kind="table")
+                                errors = ctx.try_fold(c.args[1]) if len(c.args) > 1 else "strict"
+                                for kw in c.keywords:
+                                    if kw.arg == "errors":
+                                        errors = ctx.try_fold(kw.value)
+                                okc = codec == B.norm_codec(b["str"]["codec"]) and errors in ("strict", "surrogatepass")
+                                rep.ob("R19.1", "writer: text is the UTF-8 encoding of its code points", okc,
+                                       "codec %s, error policy %s (every encodable string has its published bytes)" % (codec, errors)
+                                       if okc else "text is encoded with codec %s / error policy %s: some strings are written as "
+                                       "bytes that are not the UTF-8 form of their code points" % (codec, errors),
+                                       ctx.loc(p.nodes[0]), kind="table")
 
     # ------------------------------------------------------------------ R19.2
     want_terms = ref_loader_terms(ref)
@@ -205,7 +213,8 @@ def run(ctx, rep):
             continue
         lfn, term = ld
         if want[0] == "decode":
-            ok = term[0] == "decode" and c04.term_eq(term[1], want[1]) and term[2] == want[2]
+            ok = term[0] == "decode" and c04.term_eq(term[1], want[1]) and term[2] == want[2] and \
+                term[3] in ("strict", "surrogatepass")
         else:
             ok = c04.term_eq(term, want)
         rep.ob("R19.2", "reader: tag %s" % tag.hex(), ok,
